@@ -136,7 +136,15 @@ class HistContainer(IndexedContainer):
         self._unprocessed_entries = []
 
     def _get_error_reference(self):
+        if self._unprocessed_entries:  # process outstanding entries
+            self._fill_unprocessed()
         return self._data[1:-1]
+
+    def _on_bin_content_change(self):
+        # re-assigning the reference invalidates the cached matrices of relative errors
+        for _err_dict in self._error_dicts.values():
+            _err_dict["err"].reference = self._get_error_reference
+        self._clear_total_error_cache()
 
     # -- public properties
 
@@ -234,6 +242,7 @@ class HistContainer(IndexedContainer):
             self._unprocessed_entries += list(entries)
         except TypeError:
             self._unprocessed_entries.append(entries)
+        self._on_bin_content_change()
 
     def rebin(self, new_bin_edges):
         """
@@ -254,6 +263,7 @@ class HistContainer(IndexedContainer):
         # mark all entries as unprocessed
         self._unprocessed_entries += self._processed_entries
         self._processed_entries = []
+        self._on_bin_content_change()
 
     def set_bins(self, bin_heights, underflow=0, overflow=0):
         """
